@@ -569,6 +569,12 @@ class IH5Group(IH5InnerNode):
         if nodes[-1]._gpath == path:
             raise ValueError("Cannot create group, it already exists!")
 
+        # if intermediate groups are missing, the first missing one must be created
+        # as proper "overwrite" group (it could have been deleted in the past)
+        suf_segs = nodes[-1]._rel_path(path).lstrip("/").split("/")
+        if len(suf_segs) > 1:
+            self.create_group(f"{nodes[-1]._gpath.rstrip('/')}/{suf_segs[0]}")
+
         # remove "deleted" marker, if set at current path in current patch container
         if path in self._files[-1] and _node_is_del_mark(self._files[-1][path]):
             del self._files[-1][path]
